@@ -79,7 +79,11 @@ Fixpoint canon (b : dblock) {struct b} : list dblock :=
 Definition canons (bs : list dblock) : list dblock := flat_map canon bs.
 
 (* heading text with the parts formatting may legitimately rewrite (C06: refreshed link
-   titles, bare wiki links) replaced by the link destination *)
+   titles, bare wiki links) replaced by the link DESTINATION - the note the url names from the
+   note's directory [dir], as everywhere else (since inline note links are kept by key the url is
+   written in its canonical relative form: `./a` comes back as `a`, the same destination) *)
+Section Skel.
+Variable dir : string.
 Fixpoint stable_text (i : inline) : string :=
   let fix go (l : list inline) : string :=
     match l with [] => "" | x :: r => stable_text x +++ go r end in
@@ -92,7 +96,7 @@ Fixpoint stable_text (i : inline) : string :=
       if is_ref_url url then
         match lt with
         | WikiLinkPiped => go l
-        | _ => " @" +++ strip_md url +++ " "
+        | _ => " @" +++ from_rel_link_url url dir +++ " "
         end
       else go l
   | Image _ _ l => go l
@@ -116,6 +120,7 @@ Fixpoint skel1 (b : dblock) {struct b} : sk :=
   end.
 
 Definition skels (bs : list dblock) : list sk := map skel1 (canons bs).
+End Skel.
 
 (* heading levels of one nesting context *)
 Definition levels_of (s : list sk) : list nat :=
@@ -274,17 +279,17 @@ Definition p_fixpoint (o : note_obs) : bool := text_eqb (no_text o) (no_text2 o)
 (* C07a: same skeleton (levels erased) before and after *)
 Definition p_skeleton (c : libcase) (o : note_obs) : bool :=
   match note_blocks c (no_key o), no_reread o with
-  | Some bs, Ok (_, bs') => list_eqb (sk_eqb false) (skels bs) (skels bs')
+  | Some bs, Ok (_, bs') => list_eqb (sk_eqb false) (skels (key_parent (no_key o)) bs) (skels (key_parent (no_key o)) bs')
   | _, _ => false
   end.
 (* C07b: the written outline is well nested in every context *)
 Definition p_well_nested (o : note_obs) : bool :=
-  match no_reread o with Ok (_, bs') => all_well_nested (skels bs') | _ => false end.
+  match no_reread o with Ok (_, bs') => all_well_nested (skels (key_parent (no_key o)) bs') | _ => false end.
 (* C07c: a well-nested outline is reproduced with identical levels *)
 Definition p_identity (c : libcase) (o : note_obs) : bool :=
   match note_blocks c (no_key o), no_reread o with
   | Some bs, Ok (_, bs') =>
-      implb (all_well_nested (skels bs)) (list_eqb (sk_eqb true) (skels bs) (skels bs'))
+      implb (all_well_nested (skels (key_parent (no_key o)) bs)) (list_eqb (sk_eqb true) (skels (key_parent (no_key o)) bs) (skels (key_parent (no_key o)) bs'))
   | _, _ => false
   end.
 
